@@ -10,6 +10,8 @@ THEOREMS = ['C01_lut_correct', 'C01_dispatch2_correct', 'C01_select_prim', 'C01_
             'C01_cycles_model_correct', 'C01_sim_case2_correct']
 THEOREMS += ['C01_simops_ops_source_is_model', 'C01_simops_ops_source_is_model_wf', 'C01_simops_ops_source_nonvacuous']
 THEOREMS += ['C01_simops_ops_source_uses_translated_order']
+THEOREMS += ['C01_logicsim_chain2_agrees_trace', 'C01_logicsim_loop_source_is_model', 'C01_logicsim_drivers_source_is_model_partial',
+             'C01_logicsim_loop_source_nonvacuous']
 
 
 def oracle_cycles(c, stim_bits, k):
@@ -49,12 +51,15 @@ def run(ck):
     ok_t = sk.regen_tables(ck)
     ok_src = sc.translate_simops(ck)
     from harness import traversals_src as ts
+    from harness import lsim_drivers_corr as ld
+    ok_drv = ld.translate_drivers(ck)   # evaluation loops / driver methods of logic_sim.py (Gen/LogicSimDriversSrc.v)
     ts.translate_traversals(ck)       # circuit.topological_order / s_nodes, which the translated scheduler iterates over (Gen/TraversalsSrc.v)
     ck.prove('C01', THEOREMS)
     if ok_src:
         sc.run_source_corr(ck, random.Random(ck.seed * 7919 + 101), ck.scale(8, 200), 'op list')
     if ok_t:
         sk.validate_dispatch(ck, ['disp2_cpu', 'disp2_cb'])
+    drv_fails = ld.run(ck, random.Random(ck.seed * 7919 + 103), ck.scale(36, 300)) if ok_drv else []
     rng = random.Random(ck.seed * 7919 + 1)
     nrng = np.random.default_rng(ck.seed + 1)
     ncirc = ck.scale(60, 1500)
@@ -159,6 +164,9 @@ def run(ck):
              '(Proofs/LogicSimGlue.v): for every well-formed acyclic netlist of known gates, all c_reuse / strip_forks settings and every '
              'stimulus the compared entry point sim_case2 returns the k-fold synchronous Boolean semantics (C01_sim_case2_correct); '
              'outside that domain (output-less gates, unknown kinds, forks without input) the tie is correspondence + per-case certificates')
+    if not fails:
+        for key, what, rp in drv_fails[:3]:
+            ck.fail(key, what, rp, found_input=False)
     for kind, desc, what in fails[:5]:
         ck.fail(f'logicsim2:{kind}', 'LogicSim(m=2) ' + what, {'component': 'logic_sim.LogicSim m=2', 'input': desc, 'actual': what})
     if not fails:
